@@ -366,6 +366,22 @@ func (e *env) Codec(c *enum.Ctx, d *rtl.Decl, longLen int) (reflect.Value, []byt
 		c.Fail("unmarshal-value:"+d.Name, "UnmarshalTL(schema bytes) differs from the value at %s", diff)
 		return v, want, false
 	}
+	// "optional fields present exactly when their mode bit is set" also when the destination was used before: the value
+	// is decoded into a destination that first received an encoding of the same declaration with every flag bit set
+	if prev, prevBytes, ok := e.allFlagsValue(d, t); ok && !boxedOnly(boxed) {
+		dst := reflect.New(t)
+		if tl.Unmarshal(bytes.NewReader(prevBytes), dst.Interface()) == nil {
+			_ = prev
+			if err := tl.Unmarshal(bytes.NewReader(want), dst.Interface()); err != nil {
+				c.Fail("unmarshal-into-used-destination:"+d.Name, "UnmarshalTL into a destination used before fails: %v", err)
+				return v, want, false
+			}
+			if diff := gen.Equal(v, dst.Elem()); diff != "" {
+				c.Fail("unmarshal-into-used-destination:"+d.Name, "decoding into a destination that held a value with all optional fields present differs from the value at %s", diff)
+				return v, want, false
+			}
+		}
+	}
 	// the same bytes arriving in pieces (one byte per Read; the last piece together with io.EOF)
 	for name, rd2 := range map[string]io.Reader{"one byte at a time": iotest.OneByteReader(bytes.NewReader(want)), "data together with EOF": iotest.DataErrReader(bytes.NewReader(want))} {
 		b2 := reflect.New(t)
@@ -951,3 +967,49 @@ func FieldByKey(v reflect.Value, name string) (reflect.Value, bool) { return fie
 func FieldNameByKey(t reflect.Type, name string) string             { return fieldNameByKey(t, name) }
 func Short(b []byte) string                                         { return short(b) }
 func Addressable(v reflect.Value) reflect.Value                     { return addressable(v) }
+
+func boxedOnly(boxed bool) bool { return false }
+
+// allFlagsValue builds (without consuming choices) a value of declaration d with every flag bit in use set and default
+// operands, and its reference encoding.
+func (e *env) allFlagsValue(d *rtl.Decl, t reflect.Type) (reflect.Value, []byte, bool) {
+	hasFlags := false
+	for _, f := range d.Fields {
+		if f.Flag != "" {
+			hasFlags = true
+		}
+	}
+	if !hasFlags {
+		return reflect.Value{}, nil, false
+	}
+	fc := &fixedChooser{}
+	c2 := enum.NewFixedCtx(fc.choose)
+	v := reflect.New(t).Elem()
+	b := &builder{e: e, c: c2, longLen: -1}
+	target := v
+	var prefix []byte
+	if _, isSum := t.FieldByName("SumType"); isSum {
+		fv, ok := fieldByKey(v, d.Name)
+		if !ok {
+			return reflect.Value{}, nil, false
+		}
+		v.FieldByName("SumType").SetString(fieldNameByKey(t, d.Name))
+		target = fv
+		prefix = rtl.U32(d.ID)
+	}
+	body, err := b.decl(d, target)
+	if err != nil {
+		return reflect.Value{}, nil, false
+	}
+	return v, append(prefix, body...), true
+}
+
+// fixedChooser answers every free choice with its last option (all flag bits set) and every costed choice with 0.
+type fixedChooser struct{}
+
+func (f *fixedChooser) choose(n int, free bool) int {
+	if free {
+		return n - 1
+	}
+	return 0
+}
